@@ -184,7 +184,7 @@ def io_case(exe, world, ops, backend, work, tag, variant=None, cycles=1):
     if variant:
         ml = vlib.run_model("c17", "variant %s\nfuel 20000\n%s\n" % (variant, "\n".join([world] + body)), args=["io"])
     shutil.rmtree(d, ignore_errors=True)
-    return {"impl": il, "outcome": oc, "report": rep, "model": ml, "world": world, "ops": ops, "backend": backend}
+    return {"impl": il, "outcome": oc, "report": rep, "model": ml, "world": world, "ops": ops, "backend": backend, "script": script}
 
 
 def cyc_in_world(world):
@@ -210,7 +210,8 @@ def io_oracle(r):
         return bad
     prev = None
     close95 = r["backend"] == "hdf5" and any(l.startswith("close 95") for l in il)
-    for l in il:
+    held = {}
+    for li, l in enumerate(il):
         if l.startswith("cycle "):
             t = l.split()
             fds, h5 = int(t[t.index("fds") + 1]), int(t[t.index("h5") + 1])
@@ -230,8 +231,16 @@ def io_oracle(r):
         d = fields(l)
         if d["res"].startswith("worldfail") or "fds" not in d:
             raise vlib.Infra("c17_io: %s" % l)
+        op = r["script"][li].split() if li < len(r["script"]) else [""]
+        twice = op[0] == "open" and op[1] in held.values()       # the file is already open through another live handle
+        if d["res"].startswith("open ok"):
+            held[d["res"].split()[2]] = op[1]
+        elif d["res"] == "close 0" and op[0] == "close":
+            held.pop(op[1], None)
         if prev is not None and d["res"] == "open err 0" and (d["fds"] != prev["fds"] or d["h5"] != prev["h5"]):
-            bad.append((None, {"problem": "a failing open changed the descriptor / HDF5 id count", "before": prev["raw"], "after": l}))
+            bad.append((K_H5TWICE if (r["backend"] == "hdf5" and twice) else None,
+                        {"problem": "a failing open changed the descriptor / HDF5 id count", "before": prev["raw"], "after": l,
+                         "op": " ".join(op)}))
             break
         if prev is not None and d["res"] == "walk err" and d["fds"] < prev["fds"]:
             bad.append((None, {"problem": "a failing traversal closed descriptors", "before": prev["raw"], "after": l}))
@@ -252,6 +261,7 @@ def io_oracle(r):
 
 
 def heap_slope(lines, warm=1):
+    # warm-up: static buffers are allocated during the first repetition(s); with >= 12 cycles cycle 10 is the reference
     """heap bytes at the cycle markers -> (values, grows?)"""
     hs = []
     for l in lines:
@@ -260,6 +270,8 @@ def heap_slope(lines, warm=1):
             hs.append(int(t[t.index("heap") + 1]))
     if len(hs) < warm + 2:
         return hs, False
+    if len(hs) >= 12:
+        warm = 10
     return hs, hs[-1] != hs[warm]
 
 
@@ -355,6 +367,18 @@ def mll_case(exe, sc, work, tag, cycles):
     return {"impl": il, "outcome": oc, "report": rep, "script": script, "sc": sc, "cycles": cycles}
 
 
+def mll_link_cycle(script):
+    """do the link nodes written by an MLL script form a cycle between files?"""
+    cur, edges = {}, []
+    for o in script:
+        t = o.split()
+        if t[0] == "open" and t[3] == "w":
+            cur[t[1]] = int(t[2])
+        elif t[0] == "link" and t[1] in cur:
+            edges.append((cur[t[1]], int(t[5])))
+    return cyc_in_world("world x " + (",".join("%d>%d" % e for e in sorted(set(edges))) or "-"))
+
+
 def mll_oracle(r):
     """model-free verdict on one MLL-level run -> list of (key or None, description).  Root causes are told apart from
     what the trace shows: a cg_open that returns an error AFTER n_open was incremented (fails behind cgio_open_file); files
@@ -374,6 +398,8 @@ def mll_oracle(r):
     prev = None
     late_files, twice_files, stranded_files, save_files, seen = set(), set(), set(), set(), set()
     link_targets = set("M%s.cgns" % o.split()[5] for o in r["script"] if o.startswith("link "))
+    written = set("M%s.cgns" % o.split()[2] for o in r["script"] if o.startswith("open ") and o.split()[3] == "w")
+    cyclic = mll_link_cycle(r["script"])
     hfile = {}
     for op, l in zip(r["script"], il):
         if l.startswith("prepfail") or l.startswith("badline"):
@@ -403,6 +429,8 @@ def mll_oracle(r):
                         rest = set()
                 if rest and sc["backend"] == "hdf5" and rest <= link_targets:
                     causes.add(K_H5LINK); rest = set()
+                if rest and sc["backend"] == "adf" and cyclic and rest <= (link_targets | written):
+                    causes.add(K_ADFCYCLE_LEAK); rest = set()    # files linking to each other keep each other open
                 if rest or not causes:
                     bad.append((None, dict(desc, unexplained=sorted(rest))))
                 for c in sorted(causes):
@@ -428,6 +456,9 @@ def mll_oracle(r):
                 if op.startswith("open") and prev.get("mllprev") is not None and "mll" in d and int(d["mll"].split()[1]) > prev["mllprev"]:
                     key = K_OPENFAIL             # n_open went up although the call failed: it failed behind cgio_open_file
                     late_files.add("M%s.cgns" % op.split()[2])
+                if key is None and op.startswith("open") and sc["backend"] == "adf" and cyclic and "mll" in d and \
+                        int(d["mll"].split()[1]) <= prev["mllprev"]:
+                    key = K_ADFCYCLE_LEAK        # the failing open was undone, the files it reached through a link cycle stay
                 if op.startswith("save ") and d["fds"] > prev["fds"]:
                     key = K_SAVEAS               # the output file of a failing cg_save_as stays open
                     save_files.add("M%s.cgns" % op.split()[2])
@@ -454,24 +485,44 @@ def mll_oracle(r):
     return bad
 
 
-def mll_model_lines(script, il, variant):
+def mll_model_lines(script, il, variant, backend):
     """feed the open/close skeleton of an MLL session to the MLL-table model; -> (model lines, impl lines).  The outcome
     class of an open is derived from the KIND of the file (data file: ok; missing / not a database: fails in cgio; wrong
-    version / broken tree: fails after cgio_open_file), never from what the implementation answered."""
+    version / broken tree: fails after cgio_open_file), not from what the implementation answered -- except where the
+    answer legitimately depends on facts outside the table model: a data file that contains link nodes (a dangling or
+    circular link makes cgi_read fail) and, on HDF5, a file that is already open through another handle (libhdf5 refuses
+    conflicting reopens).  There the class (fails in cgio / fails later) is read off n_cgns_files."""
     m_in, impl = ["variant " + variant], []
+    writing, has_links, open_files, nfiles_prev = {}, set(), {}, 0
     for op, l in zip(script, il):
         t = op.split()
+        if t[0] == "link" and t[1] in writing:
+            has_links.add(writing[t[1]])
         if t[0] == "open":
             f = int(t[2])
+            d = fields(l)
+            ok = l.startswith("open 0")
+            nfiles = int(d["mll"].split()[2]) if "mll" in d else nfiles_prev
             oc = "ok"
             if f in SPECIAL:
                 oc = "latefail" if SPECIAL[f] in LATE else "cgiofail"
+            elif not ok and (f in has_links or (backend == "hdf5" and f in open_files.values())):
+                oc = "latefail" if nfiles > nfiles_prev else "cgiofail"
+            if ok:
+                open_files[t[1]] = f
+                if t[3] == "w":
+                    writing[t[1]] = f
             m_in.append("open %s %s" % (t[1], oc))
         elif t[0] == "close":
+            if l.startswith("close 0"):
+                open_files.pop(t[1], None); writing.pop(t[1], None)
             m_in.append("close %s ok" % t[1])
         else:
             continue
-        impl.append(l.split(" | ")[0] + " | " + fields(l).get("mll", ""))
+        d = fields(l)
+        if "mll" in d:
+            nfiles_prev = int(d["mll"].split()[2])
+        impl.append(l.split(" | ")[0] + " | " + d.get("mll", ""))
     ml = vlib.run_model("c17", "\n".join(m_in) + "\n", args=["mll"])
     return ml, impl
 
@@ -479,11 +530,49 @@ def mll_model_lines(script, il, variant):
 # ----------------------------------------------------------------------------------------------- the check
 W1 = ("world ok,ok,ok 0>1,2>0", ["open 0 r", "open 2 r", "open 2 r", "walk 2 0 1", "walk 3 0", "close 2", "close 1", "close 3"])
 W2 = ("world ok,ok 0>1,1>0", ["open 0 r", "walk 1 1 0", "close 1"])
-CORPUS_IO = [W1, W2,
+CORPUS_IO = [("world ok,ok 0>1", ["open 0 r", "node 1 1", "close 1"]), W1, W2,
              ("world ok,ok,ok 0>1,2>0", ["open 0 r", "open 2 r", "walk 2 0 1", "close 2", "walk 1 1", "close 1"]),
              ("world ok,ok,badhdr,garbage 0>1,0>2,0>3,1>2", ["open 0 m", "walk 1 2", "walk 1 3", "walk 1 1 2", "open 2 r", "open 3 r", "node 1 1", "close 1"]),
-             ("world ok,ok 0>1", ["open 0 r", "node 1 1", "close 1"]),
              ("world ok,ok,ok 0>1,1>2", ["open 0 r", "open 1 r", "walk 1 1 2", "walk 2 2", "close 2", "close 1", "open 2 r", "open 2 m", "close 1", "close 2"])]
+
+
+def _sc(backend, prep, body):
+    return {"prep": ["ftype " + backend] + prep, "body": body, "backend": backend, "shape": "corpus", "nfiles": 0}
+
+
+W = ["base 0 Base", "zone 0 1 Zone1 2", "coord 0 1 1 CoordinateX", "sol 0 1 1 Sol1", "field 0 1 1 1 Density"]
+CORPUS_MLL = [
+    # cg_open failing behind cgio_open_file: wrong version, two version nodes, broken base, broken zone, dangling link
+    _sc("adf", ["prep 12 badver adf"], ["open 0 12 r", "close 0"]),
+    _sc("adf", ["prep 13 twovers adf"], ["open 0 13 r", "open 1 13 m", "close 0"]),
+    _sc("hdf5", ["prep 14 badbase hdf5", "prep 15 badzone hdf5"], ["open 0 14 r", "open 0 15 m", "close 0"]),
+    _sc("adf", [], ["open 0 1 w"] + W + ["link 0 1 0 Dangling 10 /Base/Zone1", "close 0", "open 0 1 r", "open 0 1 m", "close 0"]),
+    # HDF5: reading through a link to another file; the same file opened twice, closed in the other order
+    _sc("hdf5", [], ["open 0 1 w"] + W + ["close 0", "open 0 2 w", "base 0 Base", "zone 0 1 ZoneA 2",
+                     "link 0 1 1 GridCoordinates 1 /Base/Zone1/GridCoordinates", "close 0", "open 0 2 r", "rcoord 0 1 1 CoordinateX", "close 0"]),
+    _sc("hdf5", [], ["open 0 1 w"] + W + ["close 0", "open 0 1 r", "open 1 1 r", "close 1", "close 0"]),
+    # cg_save_as failing after its output was opened
+    _sc("adf", [], ["open 0 2 w", "base 0 Base", "link 0 1 0 Dangling 10 /Base/Zone1", "save 0 21 adf 1", "close 0"]),
+    # ADF: two files whose links lead to each other (link to a link)
+    _sc("adf", [], ["open 0 1 w"] + W + ["zone 0 1 ZoneA 2", "link 0 1 2 SolL 2 /Base/ZoneA/SolM", "close 0",
+                    "open 0 2 w"] + W + ["zone 0 1 ZoneA 2", "link 0 1 2 SolM 1 /Base/Zone1/Sol1", "link 0 1 2 SolB 1 /Base/ZoneA/SolL", "close 0",
+                    "open 0 1 r", "nsols 0 1 2", "open 1 2 r", "nsols 1 1 2", "close 0", "close 1"]),
+]
+
+
+def long_session(backend):
+    """a session that must be repeatable for ever on the unchanged tree: writes, reads, navigation, modification, deletion,
+    links between two files (ADF), failing calls that acquire nothing (bad index / name / mode, missing and non-CGNS files)"""
+    body = ["open 0 1 w"] + W + ["desc 0 1 Info first", "close 0",
+            "open 0 2 w", "base 0 Base", "zone 0 1 Zone1 2", "coord 0 1 1 CoordinateX", "zone 0 1 ZoneA 2"]
+    if backend == "adf":
+        body += ["link 0 1 2 GridCoordinates 1 /Base/Zone1/GridCoordinates", "link 0 1 0 ZoneL 1 /Base/Zone1", "link 0 1 2 SolL 1 /Base/Zone1/Sol1"]
+    body += ["close 0", "open 0 2 r", "nbases 0", "nzones 0 1", "rzone 0 1 1", "rzone 0 1 2", "rzone 0 1 3", "rzone 0 1 9", "rcoord 0 1 1 CoordinateX",
+             "rcoord 0 1 2 CoordinateX", "rcoord 0 1 1 NoSuchCoord", "rfield 0 1 3 1 Density", "rfield 0 1 1 7 Density", "gopath 0 /Base/Zone1/GridCoordinates",
+             "where", "gopath 0 /Base/Nowhere", "base 0 NotAllowed", "desc 0 1 No no", "open 1 10 r", "open 1 11 r", "open 1 1 r", "ndesc 1 1", "rdesc 1 1 1",
+             "rdesc 1 1 9", "save 1 20 %s 0" % backend, "close 1", "close 0", "open 0 1 m", "desc 0 1 Info2 second", "sol 0 1 1 Sol2", "delete 0 1 Info",
+             "delete 0 1 Nothing", "nzones 0 7", "close 0", "open 0 20 r", "nzones 0 1", "close 0", "close 3"]
+    return _sc(backend, ["prep 11 garbage " + backend], body)
 
 
 def detect_variant(exe, work):
@@ -532,7 +621,8 @@ def run(ck):
         "tested only = heap reachability (LeakSanitizer), heap growth over cycles, HDF5 identifier lifetime, everything inside libhdf5 and ADFH",
         "no I/O or malloc failures (C14's business)", "single thread", "the link cache of ADFI_chase_link is not modelled "
         "(cleared by every real close; a hit skips an ADFI_link_add that would be a no-op) -- covered by the correspondence run",
-        "the theorems about the repaired close exclude running out of fuel by hypothesis"]
+        "the session-level theorem about the repaired close takes 'did not run out of fuel' as hypothesis; the close itself is proved to "
+        "terminate within 3*(link entries)+3 steps from every state satisfying the invariant"]
     ck.cov["rule"] = (
         "cgio level: generated worlds (2..6 files of kinds ok/missing/garbage/bad-header/directory, link graphs dag/chain/arbitrary) and sessions "
         "(opens r/m, link traversals of 1..4 hops incl. through missing and unreadable files, closes of valid, stale and invalid numbers), every handle "
@@ -559,7 +649,7 @@ def run(ck):
             findings[k] = (key, desc, replay)
 
     # ---------------- cgio / ADF level
-    nio = 160 if big else 44
+    nio = 700 if big else 90
     cases = list(CORPUS_IO) + [gen_io(ck.rng, big) for _ in range(nio)]
     futs = []
     for i, (world, ops) in enumerate(cases):
@@ -597,14 +687,18 @@ def run(ck):
             note(key, desc, rep)
 
     # ---------------- MLL level
-    nml = 36 if big else 10
+    nml = 140 if big else 18
     cyc = 40 if big else 6
-    scs = []
+    scs = list(CORPUS_MLL)
     for i in range(nml):
         be = "adf" if i % 2 == 0 else "hdf5"
         scs.append(gen_mll(ck.rng, be, big))
     # the slope run of the design: one long repetition per back end in the thorough tier (cycle 10 vs cycle 200)
-    futs = [pool.submit(mll_case, hml, sc, ck.work, "ml%d" % i, (200 if (big and i < 2) else cyc)) for i, sc in enumerate(scs)]
+    nc = len(CORPUS_MLL)
+    # the slope run of the design (cycle 10 vs cycle 200 in the thorough tier): one clean long session per back end
+    scs = scs[:nc] + [long_session("adf"), long_session("hdf5")] + scs[nc:]
+    ncyc = lambda i: 3 if i < nc else (200 if big else 25) if i < nc + 2 else cyc
+    futs = [pool.submit(mll_case, hml, sc, ck.work, "ml%d" % i, ncyc(i)) for i, sc in enumerate(scs)]
     for fu in futs:
         r = fu.result()
         sc = r["sc"]
@@ -625,12 +719,12 @@ def run(ck):
         # model B: the MLL table after every cg_open / cg_close of the first repetition
         if res["ok"] and r["outcome"] == "ok":
             n1 = len(sc["prep"]) + len(sc["body"])
-            ml, il = mll_model_lines(r["script"][:n1], r["impl"][:n1], mvariant)
+            ml, il = mll_model_lines(r["script"][:n1], r["impl"][:n1], mvariant, sc["backend"])
             stats["mll_tables_compared"] += len(ml)
             ck.cov["traces_validated_against_impl"] += 1
             if ml != il:
                 dv = vlib.first_divergence(ml, il)
-                corr_broken.append({"level": "mll", "backend": sc["backend"], "body": sc["body"],
+                corr_broken.append({"level": "mll", "backend": sc["backend"], "prep": sc["prep"], "body": sc["body"],
                                     "first_divergence": dv and {"line": dv[0], "model": dv[1], "impl": dv[2]},
                                     "explained_by": [b[0] for b in bad if b[0]]})
     pool.shutdown()
@@ -641,13 +735,24 @@ def run(ck):
         if key is None:
             ck.violation(rep)
             continue
-        # shrink the witness of a cgio-level finding (cheap) before reporting it
-        if rep["level"] == "cgio" and len(rep["ops"]) > 3:
-            def still(ops, rep=rep, key=key):
-                rr = io_case(hio, rep["world"], ops, rep["backend"], ck.work, "shr")
-                return any(kk == key for kk, _ in io_oracle(rr))
-            small = shrink_ops(rep["ops"], still)
-            rep = dict(rep, ops=small, ops_before_shrinking=len(rep["ops"]))
+        # shrink the witness before reporting it (not needed for a key that is already listed: no replay is written)
+        if not ck.known_match(key):
+            if rep["level"] == "cgio" and len(rep["ops"]) > 3:
+                def still(ops, rep=rep, key=key):
+                    rr = io_case(hio, rep["world"], ops, rep["backend"], ck.work, "shr")
+                    return any(kk == key for kk, _ in io_oracle(rr))
+                small = vlib.ddmin(rep["ops"], still, max_tests=60)
+                rep = dict(rep, ops=small, ops_before_shrinking=len(rep["ops"]))
+            elif rep["level"] == "mll" and len(rep["body"]) > 8:
+                def still(body, rep=rep, key=key):
+                    sc2 = {"prep": rep["prep"], "body": body, "backend": rep["backend"], "shape": "shrink", "nfiles": 0}
+                    try:
+                        rr = mll_case(hml, sc2, ck.work, "shr", 3)
+                        return any(kk == key for kk, _ in mll_oracle(rr))
+                    except vlib.Infra:
+                        return False
+                small = vlib.ddmin(rep["body"], still, max_tests=50)
+                rep = dict(rep, body=small, body_before_shrinking=len(rep["body"]))
         ck.finding(key, rep)
     unexplained = [c for c in corr_broken if not c.get("explained_by")]
     if (broken or unexplained) and not ck.violations:
